@@ -21,6 +21,8 @@ AREAS = {
                  "explain": "lexplain", "default_case": "(mkLC (mkICfg true true false false false) (mkEnv [] 0) [] 0 [] (mkEnv [] 0))"},
     "fleet": {"branches": [3], "shard": 40,
               "explain": "fexplain", "default_case": "(mkFC [] [])"},
+    "crash": {"branches": [3], "shard": 40,
+              "explain": "cexplain", "default_case": "(mkCC [])"},
 }
 
 PROPS = {
@@ -75,6 +77,11 @@ PROPS = {
     "C04": {"seed": 4, "areas": [("fleet", 120), ("merge", 300), ("retention", 60)], "thorough_mult": 6,
             "assumptions": ["retention part (C04_retention.v): 0 <= RetentionDuration() < 2^63 ns, clock values in 1970..2262; RetentionDuration() (a float32 product) is an input computed by Go; negative / overflowing retention_days is outside the claim (the configuration is not validated by /repo)"],
             "trusted_base": [LMDB_TRUST, "modelled: NativeIterator.Merge stale-marker rule, Retention arithmetic, Fleet joins, capture/dump theorems of C11/C06"]},
+    "C05": {"seed": 5, "areas": [("crash", 60), ("cleaner", 150)], "thorough_mult": 5,
+            "assumptions": ["tomb sweeper disabled (the property excepts markers past retention)",
+                            "snapshots are decodable (corrupt blobs: C08/C16); sequence numbers = global upload order (names sort chronologically: C15; clocks of different instances are assumed not to run backwards relative to each other by more than the cleaner's intervals, as the cleaner itself assumes)",
+                            "the model's guards are those of the code: Upload only when the own instance is not waited for (syncLoop), cleaner rules (C12 theorems + cleaner correspondence area); the real event logs are replayed against an executable transcription of the guards (Corr/Run_crash.v)"],
+            "trusted_base": [LMDB_TRUST, "modelled: Fleet/Crash.v (content-level bucket/process model); the executable guard transcription in Corr/Run_crash.v is hand-written next to it"]},
 }
 
 # fragments: bin/props.d/*.py may define AREAS_ADD / PROPS_ADD
